@@ -34,6 +34,45 @@ def gen_secdefs(rng, gen_re=False):
     return out
 
 
+LOOK_KINDS = ["cmp", "cmp", "cmp", "walk", "walk", "oftype", "contains", "len", "get", "ends", "write", "elems"]
+
+
+def gen_looks(rng, secs, content):
+    """1-4 things done with the file object between its read and the measured elements/write, none of which modifies it:
+    comparisons (== / !=, as left or right operand) with another file read through the same class from the same content, from
+    an edited content of the same length, from a shorter one or from an unrelated one; a traversal of .data abandoned after k
+    elements; a type-filtered traversal abandoned after k elements (or run to its end); a membership test; len();
+    get_sections_of_type(); .first/.last; a write; a look at the elements (the last two are recorded and judged as well)."""
+    out = []
+    lines = nl_lines(content)
+    for _ in range(rng.randint(1, 4)):
+        k = rng.choice(LOOK_KINDS)
+        if k == "cmp":
+            v = rng.random()
+            if v < 0.35 or not lines:
+                other = content
+            elif v < 0.7:
+                i = rng.randrange(len(lines))
+                other = "".join(lines[:i] + [rng.choice(["#", "x", "END "]) + lines[i]] + lines[i + 1:])
+            elif v < 0.8:
+                i = rng.randrange(len(lines))
+                other = "".join(lines[:i] + lines[i + 1:])
+            else:
+                other = "\n".join(rng.choice(LINE_POOL) for _ in range(rng.randint(0, 6))) + rng.choice(["\n", ""])
+            out.append(["cmp", other, rng.choice("lr"), rng.choice(["==", "==", "!="])])
+        elif k == "walk":
+            out.append(["walk", rng.randint(0, 4)])
+        elif k == "oftype":
+            out.append(["oftype", rng.randint(-1, len(secs) - 1), rng.choice([None, 0, 1, 1, 2])])
+        elif k == "contains":
+            out.append(["contains", rng.randint(0, 5)])
+        elif k == "get":
+            out.append(["get", rng.randint(-1, len(secs) - 1)])
+        else:
+            out.append([k])
+    return out
+
+
 class CHECK(Check):
     pid = "C13"
     entry = "SECTIONFILE"
@@ -46,7 +85,12 @@ class CHECK(Check):
             " Later additions: section read() returning True/honest False/None, a third of the cases read from disk, carriage returns as ordinary characters, sections keeping what they read in an attribute of their own (data stays None)."
             " Round 11: sections whose storage is allocated by the constructor and only appended to by read(); 1-2 other contents read and "
             "written through the same file class before the measured read (40 % of the random cases); 'until' patterns that are regular "
-            "expressions proper (pool + generated, see C12).")
+            "expressions proper (pool + generated, see C12)."
+            " Round 12: the lifetime of the file object between its read and the measured write (45 % of the random cases): 1-4 looks that "
+            "modify nothing -- ==/!= as left or right operand against a file read through the same class from the same / an edited / a "
+            "shorter / an unrelated content, traversals of .data and of_type() abandoned after k elements, membership, len, "
+            "get_sections_of_type, first/last, writes and looks at the elements in between (each of these is recorded, compared with "
+            "the model -- which is functional: every write gives the content, every look the same elements -- and judged like the measured ones).")
 
     def gen(self, tier, rng):
         import random
@@ -70,6 +114,9 @@ class CHECK(Check):
                 # object history: 1-2 other contents were read (and written) through the same file class before
                 case["earlier"] = ["\n".join(rng.choice(LINE_POOL) for _ in range(rng.randint(0, 6))) + rng.choice(["\n", ""])
                                    for _ in range(rng.randint(1, 2))]
+            if rng.random() < 0.45:
+                # object lifetime: what is done with the file between its read and the measured elements / write
+                case["looks"] = gen_looks(rng, sds, case["content"])
             yield case
 
     def impl(self, case):
@@ -84,19 +131,73 @@ class CHECK(Check):
             arg = os.path.join(d, "in.txt")
             with open(arg, "w", encoding="utf-8", newline="") as fh:
                 fh.write(case["content"])
+        looks = case.get("looks", [])
+        cap = len(case["content"]) + len(secs) + 5
+        during = []
         try:
-            with lib.budget(5000 + 600 * (len(case["content"]) + 1 + sum(len(c) + 1 for c in case.get("earlier", [])))):
+            with lib.budget((5000 + 600 * (len(case["content"]) + 1 + sum(len(c) + 1 for c in case.get("earlier", [])))) * (1 + len(looks))
+                            + 1200 * sum(len(l[1]) + 1 for l in looks if l[0] == "cmp")):
                 for c0 in case.get("earlier", []):
                     F.read(c0).write(io.StringIO())
                 f = F.read(arg)
-                elems = bl.canon_raw(f.data, DefaultSection, cap=len(case["content"]) + len(secs) + 5)
+                for look in looks:
+                    self.look(f, F, secs, look, during, cap)
+                elems = bl.canon_raw(f.data, DefaultSection, cap=cap)
                 buf = io.StringIO()
                 f.write(buf)
         except lib.BudgetExceeded:
             return {"raised": "BudgetExceeded"}
         except Exception as e:
             return {"raised": type(e).__name__ + ": " + str(e)[:100]}
-        return {"placeholder": elems[0], "elems": elems[1:], "written": buf.getvalue()}
+        obs = {"placeholder": elems[0] if elems else None, "elems": elems[1:], "written": buf.getvalue()}
+        if looks:
+            obs["during"] = during
+        return obs
+
+    @staticmethod
+    def look(f, F, secs, look, during, cap):
+        """one use of the file object `f` that does not modify it (public API only); writes and looks at the elements are recorded"""
+        from cfinterface.components.defaultsection import DefaultSection
+        kind = look[0]
+        if kind == "cmp":
+            g = F.read(look[1])
+            a, b = (f, g) if look[2] == "l" else (g, f)
+            (a == b) if look[3] == "==" else (a != b)        # the verdict is C15's business, not observed here
+        elif kind == "walk":
+            it = iter(f.data)
+            for _ in range(look[1]):
+                if next(it, None) is None:
+                    break
+        elif kind == "oftype":
+            it = f.data.of_type(DefaultSection if not 0 <= look[1] < len(secs) else secs[look[1]])
+            n = 0
+            while look[2] is None or n < look[2]:
+                if next(it, None) is None:
+                    break
+                n += 1
+                if n > cap:
+                    break
+        elif kind == "contains":
+            e = f.data.first
+            for _ in range(look[1]):
+                if e.next is None:
+                    break
+                e = e.next
+            e in f.data
+        elif kind == "len":
+            len(f.data)
+        elif kind == "get":
+            f.data.get_sections_of_type(DefaultSection if not 0 <= look[1] < len(secs) else secs[look[1]])
+        elif kind == "ends":
+            f.data.first, f.data.last
+        elif kind == "write":
+            buf = io.StringIO()
+            f.write(buf)
+            during.append(["write", buf.getvalue()])
+        elif kind == "elems":
+            during.append(["elems", bl.canon_raw(f.data, DefaultSection, cap=cap)])
+        else:
+            raise ValueError("unknown look %r" % (look,))
 
     def model_arg(self, case):
         return [[bl.secdef_sx(sd) for sd in case["secs"]], case["content"]]
@@ -104,13 +205,44 @@ class CHECK(Check):
     def model_obs(self, case, res):
         if res == [-3]:
             return {"raised": "OutOfFuel"}
-        return {"placeholder": [-1, ""], "elems": bl.model_raw(res[0]), "written": lib.to_str(res[1])}
+        obs = {"placeholder": [-1, ""], "elems": bl.model_raw(res[0]), "written": lib.to_str(res[1])}
+        if case.get("looks"):
+            # the model is functional: whatever was done with the file in between, a write gives what the write of the file read
+            # from the content gives, and the elements are the elements
+            obs["during"] = [["write", obs["written"]] if l[0] == "write" else ["elems", [obs["placeholder"]] + obs["elems"]]
+                             for l in case["looks"] if l[0] in ("write", "elems")]
+        return obs
 
     def oracle(self, case, obs):
         if "raised" in obs:
             return "SectionFile.read/write raised: %s" % obs["raised"]
+        # what was recorded while the file object was in use between its read and the measured observation: the file is what
+        # was read from x for as long as nothing modifies it
+        looks = [l for l in case.get("looks", []) if l[0] in ("write", "elems")]
+        during = obs.get("during", [])
+        if [l[0] for l in looks] != [d[0] for d in during]:
+            return "the recorded intermediate observations are not the ones asked for"
+        for kind, val in during:
+            if kind == "write":
+                if val != case["content"]:
+                    return "writing the file read from x does not reproduce x (a write during the life of the file object)"
+            else:
+                why = self.elems_ok(case, val)
+                if why:
+                    return why + " (seen during the life of the file object)"
+        why = self.elems_ok(case, ([obs["placeholder"]] if obs["placeholder"] is not None else []) + obs["elems"])
+        if why:
+            return why
+        if obs["written"] != case["content"]:
+            return "writing the file read from x does not reproduce x"
+        return None
+
+    @staticmethod
+    def elems_ok(case, elems):
+        # the empty default section the container is created with is not part of what the property speaks about
+        if elems and elems[0] == [-1, ""]:
+            elems = elems[1:]
         n = len(case["secs"])
-        elems = obs["elems"]
         if [e[0] for e in elems[:n]] != list(range(n)):
             return "declared sections are not read exactly once each in declared order"
         if any(e[0] != -1 for e in elems[n:]):
@@ -140,8 +272,6 @@ class CHECK(Check):
             pos += len(raw)
         if pos != len(content):
             return "remaining lines were not kept as default sections"
-        if obs["written"] != content:
-            return "writing the file read from x does not reproduce x"
         return None
 
     def nontrivial(self, case, obs):
@@ -156,6 +286,14 @@ class CHECK(Check):
              "final_newline" if c.endswith("\n") else "no_final_newline": 1}
         if case.get("earlier"):
             d["earlier_reads_through_the_same_file_class"] = 1
+        for l in case.get("looks", []):
+            d["file_object_used_between_read_and_write"] = 1
+            k = "look_" + l[0]
+            if l[0] == "cmp":
+                k += ("_same_content" if l[1] == c else "_other_content") + ("_as_left_operand" if l[2] == "l" else "_as_right_operand")
+            elif (l[0] == "walk" and l[1] > 0) or (l[0] == "oftype" and l[2] is not None):
+                k += "_abandoned"
+            d[k] = d.get(k, 0) + 1
         if any(len(sd) > 3 and sd[3] == "init" for sd in case["secs"]):
             d["section_storage_allocated_by_the_constructor"] = 1
         if any(sd[0] == "until" and not relib.is_legacy(sd[1]) for sd in case["secs"]):
@@ -179,6 +317,11 @@ class CHECK(Check):
             for i in range(len(case["earlier"])):
                 c = dict(case)
                 c["earlier"] = case["earlier"][:i] + case["earlier"][i + 1:]
+                yield c
+        if case.get("looks"):
+            for i in range(len(case["looks"])):
+                c = dict(case)
+                c["looks"] = case["looks"][:i] + case["looks"][i + 1:]
                 yield c
 
     def neighbours(self, case, rng):
